@@ -241,9 +241,17 @@ class Interp:
         self.pyd_events: list = []         # lossy pydantic coercions observed
         self.entropy: list = []            # (what, site) ambient/entropy sources touched
         self.sym_by_uid: dict = {}
+        self.decided: dict = {}
 
     # -- choices -----------------------------------------------------------
     def choose(self, what: str) -> bool:
+        if what in self.decided:           # the same question has one answer within a run
+            return self.decided[what]
+        v = self._choose(what)
+        self.decided[what] = v
+        return v
+
+    def _choose(self, what: str) -> bool:
         if self.ci < len(self.choices):
             v = self.choices[self.ci]
             self.ci += 1
@@ -1929,7 +1937,7 @@ def _subscript_arg(m):
 
 
 # ------------------------------------------------------------------ driver with forking
-def run_forking(src: Source, fn, max_forks=64):
+def run_forking(src: Source, fn, max_forks=512):
     """Run `fn(interp)` under every combination of undetermined choices.
     Returns [(assumptions, result-or-signal, interp)]."""
     results = []
